@@ -120,7 +120,23 @@ pub fn c14(out: &mut dyn Write, tier: &str, rng: &mut Rng, st: &mut Stats) {
             st.hit("tree");
         }
         // --- the diagram, with the three filters
-        if let Ok(bdd) = eval_guarded(&pf) {
+        // every third diagram gets variable names only the API can produce: backslashes, quotes, control characters
+        let exotic = i % 3 == 2;
+        let rename = |n: &str| -> String { if !exotic { n.to_string() } else {
+            let k = n.bytes().map(|b| b as usize).sum::<usize>() % 6;
+            match k { 0 => format!("{}\\t{}", n, n), 1 => format!("\\{}", n), 2 => format!("{}\"q\"", n), 3 => format!("dir\\{}\n", n), 4 => format!("{} \t{{}}", n), _ => format!("{}\\\\", n) } } };
+        let names_field = pf.vars.iter().map(|v| format!("{}:{}", hex(rename(v.name.as_ref()).as_bytes()), v.id)).collect::<Vec<_>>().join(",");
+        if let Ok(bdd0) = eval_guarded(&pf) {
+            // the same diagram over the renamed symbols, in an environment of its own
+            let env2: rsbdd::bdd::BDDEnv<rsbdd::NamedSymbol> = rsbdd::bdd::BDDEnv::new();
+            fn copy(env: &rsbdd::bdd::BDDEnv<rsbdd::NamedSymbol>, b: &BDD<rsbdd::NamedSymbol>, rn: &dyn Fn(&str) -> String) -> Rc<BDD<rsbdd::NamedSymbol>> {
+                match b {
+                    BDD::True => env.mk_const(true),
+                    BDD::False => env.mk_const(false),
+                    BDD::Choice(t, v, f) => { let t = copy(env, t, rn); let f = copy(env, f, rn); env.mk_choice(t, rsbdd::NamedSymbol { name: Rc::new(rn(v.name.as_ref())), id: v.id }, f) }
+                }
+            }
+            let bdd = if exotic { copy(&env2, &bdd0, &rename) } else { bdd0 };
             let mut pn = PNames { map: HashMap::new() };
             let mut dump = String::new();
             pdump(&mut pn, &bdd, &mut dump);
